@@ -1,0 +1,26 @@
+//go:build verif
+
+package rag
+
+// Add-only verification hooks: exported wrappers around unexported functions of
+// export.go. Compiled only with `-tags verif`; no existing line is changed.
+
+// VerifCollectCSVColumns exposes (*Exporter).collectCSVColumns.
+func VerifCollectCSVColumns(config ExportConfig, chunks []*Chunk) []string {
+	return NewExporterWithConfig(config).collectCSVColumns(chunks)
+}
+
+// VerifChunkMetadataToMap exposes chunkMetadataToMap.
+func VerifChunkMetadataToMap(meta ChunkMetadata) map[string]interface{} {
+	return chunkMetadataToMap(meta)
+}
+
+// VerifFlattenMetadata exposes flattenMetadata.
+func VerifFlattenMetadata(data map[string]interface{}, prefix string) map[string]interface{} {
+	return flattenMetadata(data, prefix)
+}
+
+// VerifFormatValue exposes formatValue.
+func VerifFormatValue(val interface{}) string {
+	return formatValue(val)
+}
